@@ -69,10 +69,10 @@ PROPS = {
     "C19": dict(level="exploration", design="4.7", leak=True, memclass="foreign",
                 parts=[("honest", "plain", 4, 50, ["--leak"]), ("mitm-hs", "plain", 3, 120, ["--leak"]), ("mitm-data", "plain", 2, 120, ["--leak"]),
                        ("auth", "plain", 2, 50, ["--leak"]), ("entropy", "plain", 2, 80, ["--leak"]), ("ops", "plain", 2, 200, ["--leak"]),
-                       ("abrupt", "plain", 1, 50, ["--leak"])],
+                       ("abrupt", "plain", 1, 50, ["--leak"]), ("byz", "plain", 2, 64, ["--leak"])],
                 quick_s=55, thorough_s=900, quick_max=200000, thorough_max=4000000,
-                rule="one run = one run of the honest / mitm-hs / mitm-data / auth / entropy scenarios (success and the many failure paths that "
-                     "faults open) or one sequence of 3..14 single-node secret-handling operations (key generation, private-key DER/PEM/PKCS#8 "
+                rule="one run = one run of the honest / mitm-hs / mitm-data / auth / entropy / byz scenarios (success and the many failure paths that "
+                     "faults, malformed peer messages and failing allocations open) or one sequence of 3..14 single-node secret-handling operations (key generation, private-key DER/PEM/PKCS#8 "
                      "import with right and wrong password or damaged input, sign, decrypt with right/wrong key, ECDH, CMS open, record "
                      "unprotection, TLS context setup from PEM files with right/wrong passwords and damaged key files; plus connections whose closing side shuts "
                      "down while the peer still has data in flight, "
